@@ -575,6 +575,7 @@ fn attrs_program(mut idx: u64) -> Program {
     let pre = |on: bool| Prelude {
         doc: vec![],
         attrs: if on { attrs.clone() } else { vec![] },
+        docm: None,
     };
     let ty = |on: bool| TypeM {
         attrs: if on { attrs.clone() } else { vec![] },
